@@ -194,7 +194,7 @@ def main(tier):
     rows = list(gen.covering_rows(dims, 2, rnd, candidates=10))
     if tier == "thorough":
         rows += list(gen.covering_rows(dims, 3, rnd, candidates=4))
-    extra = 15000 if tier == "quick" else 150000
+    extra = 15000 if tier == "quick" else 600000
     rows += [{k: rnd.choice(v) for k, v in dims.items()} for _ in range(extra)]
     rnd.shuffle(rows)
     jobs = []
